@@ -204,6 +204,106 @@ def run(ctx, prog):
         reach = reachable_bodies(prog, [b.id])
         hits = [x for x in reach if re.search(r'HnswBackend::(delete|batch_delete)$', x)]
         ctx.inst('C20.R4', b.short, 'cannot reach the canonical delete', not hits, 'reachable bodies: %d; canonical deletes among them: %s' % (len(reach), hits))
+    # ------------------------------------------------------------------ R5 the recency list both caches evict through
+    ctx.rule('C20.R5', 'link discipline of LruIndex (the victim picker of both caches; a broken list makes pop_lru return None and the caches insert without '
+                       'evicting): head / tail / prev / next are written only by insert_new, touch, detach and clear; nodes leave the map only in remove, which '
+                       'unlinks them through detach with their own links; pop_lru removes the head through remove; detach moves head exactly when the node '
+                       'had no predecessor (or was the head) and tail exactly when it had no successor (or was the tail), and re-links both neighbours; '
+                       'insert_new links the new key behind the old tail and becomes tail, and head when the list was empty')
+    lb = {b.name: b for b in prog.bodies.values() if '::lru_index::LruIndex::' in b.id and b.kind in ('Fn', 'AssocFn')}
+    WRITERS = {'LruIndex.head': ['clear', 'detach', 'insert_new', 'touch'], 'LruIndex.tail': ['clear', 'detach', 'insert_new', 'touch'],
+               'LruNode.next': ['detach', 'insert_new', 'touch'], 'LruNode.prev': ['detach', 'touch']}
+    all_lru = [b for b in prog.bodies.values() if b.crate == 'kyrodb_engine' and b.kind != 'Promoted']
+    for fld, want in sorted(WRITERS.items()):
+        ws = sorted(set(b.name for b in all_lru if util.assign_blocks(b, re.escape(fld) + '$') and 'lru_index' in b.id))
+        outside = sorted(set(b.short for b in all_lru if util.assign_blocks(b, re.escape(fld) + '$') and 'lru_index' not in b.id))
+        ctx.inst('C20.R5', fld, 'written only by %s' % want, ws == want and not outside, 'writers: %s%s' % (ws, (' + outside the module: %s' % outside) if outside else ''))
+    for meth, want in (('remove', ['remove']), ('insert', ['insert_new']), ('clear', ['clear'])):
+        cs = sorted(set(c.body.name for c in prog.all_calls() if c.callee and flow.short(c.callee) == 'HashMap::' + meth and 'lru_index::LruIndex' in c.body.id and c.args and
+                        flow.render(flow.Origin(c.body).of_operand(c.args[0])).endswith('LruIndex.nodes')))
+        ctx.inst('C20.R5', 'LruIndex.nodes', 'nodes.%s only in %s' % (meth, want), cs == want, 'callers: %s' % cs)
+    rm = lb.get('remove')
+    if rm is None or 'detach' not in lb or 'pop_lru' not in lb or 'insert_new' not in lb:
+        ctx.missing('C20.R5', 'LruIndex::{remove, detach, pop_lru, insert_new}')
+    else:
+        ov = flow.Origin(rm, stop_at_vars=True)
+        some = [(i_, tg) for i_, blk in enumerate(rm.blocks) if blk['t']['k'] == 'switch' for tg, p in flow.switch_edge_predicates(rm, i_, ov)
+                if p == 'variant(HashMap::remove(arg:self→LruIndex.nodes, arg:key)) = Some']
+        dt = [c for c in rm.calls_to('LruIndex::detach')]
+        args_ok = bool(dt) and all([flow.render(ov.of_operand(a, 0, frozenset({-1}))) for a in c.args[1:]] == ['arg:key', 'var:node→LruNode.prev', 'var:node→LruNode.next'] for c in dt)
+        nd = rm.var_local('node')
+        node_ok = len(nd) == 1 and 'HashMap::remove(arg:self→LruIndex.nodes, arg:key)@Some' in flow.render(flow.Origin(rm).of_local(nd[0]))
+        r_ = rm.reach([tg for _, tg in some], avoid_blocks=[c.bb for c in dt]) | set(tg for _, tg in some if tg not in [c.bb for c in dt])
+        ctx.inst('C20.R5', rm.short, 'a node taken out of the map is unlinked with its own links', bool(some) and args_ok and node_ok and not any(x in r_ for x in rm.return_blocks()),
+                 'detach(key, node.prev, node.next): %s; node is the removed entry: %s' % (args_ok, node_ok))
+        pl = lb['pop_lru']
+        pv = flow.Origin(pl, stop_at_vars=True)
+        rc = pl.calls_to('LruIndex::remove')
+        ky = pl.var_local('key')
+        kyo = flow.render(flow.Origin(pl).of_local(ky[0])) if len(ky) == 1 else ''
+        some_ret = [i_ for i_, blk in enumerate(pl.blocks) for st in blk['s'] if st.get('rv', {}).get('k') == 'agg' and st['rv'].get('variant') == 'Some' and st['pl']['l'] == 0]
+        ctx.inst('C20.R5', pl.short, 'pops the head through remove(head)', len(rc) == 1 and flow.render(pv.of_operand(rc[0].args[1], 0, frozenset({-1}))) == 'var:key' and
+                 bool(re.search(r'LruIndex\.head.*@Continue→Continue\.0$', kyo)) and bool(some_ret) and all(pl.dominates(rc[0].bb, x) for x in some_ret) and
+                 not [c for c in pl.calls if c.callee and flow.short(c.callee).startswith('HashMap::') and not c.exp],
+                 'key = %s; remove calls %d; direct map access: %s' % (kyo[-50:], len(rc), [flow.short(c.callee) for c in pl.calls if c.callee and flow.short(c.callee).startswith('HashMap::') and not c.exp]))
+        dtc = lb['detach']
+        dv = flow.Origin(dtc, stop_at_vars=True)
+        df = flow.Origin(dtc)
+        preds = [(i_, tg, p) for i_, blk in enumerate(dtc.blocks) if blk['t']['k'] == 'switch' and i_ in dtc.live_blocks() for tg, p in flow.switch_edge_predicates(dtc, i_, dv)]
+        E = lambda rx: [(i_, tg) for i_, tg, p in preds if re.match(rx, p)]
+        prev_none, prev_some = E(r'^variant\(arg:prev\) ∉ \{Some\}$|^variant\(arg:prev\) = None$'), E(r'^variant\(arg:prev\) = Some$')
+        next_none, next_some = E(r'^variant\(arg:next\) ∉ \{Some\}$|^variant\(arg:next\) = None$'), E(r'^variant\(arg:next\) = Some$')
+        was_head, was_tail = E(r'^eq\[arg:self→LruIndex\.head, option::Option::Some\{arg:key\}\]$'), E(r'^eq\[arg:self→LruIndex\.tail, option::Option::Some\{arg:key\}\]$')
+        asg = []
+        for i_, blk in enumerate(dtc.blocks):
+            for st in blk['s']:
+                if 'rv' in st and st['pl'].get('p'):
+                    fs = [x for x in st['pl']['p'] if isinstance(x, str) and x != '*']
+                    if fs and re.search(r'Lru(Index|Node)\.(head|tail|prev|next)$', fs[-1]):
+                        asg.append((i_, fs[-1].split('.')[-1], flow.render(df.of_place(st['pl'])), flow.render(dv.of_rvalue(st['rv'], 0, frozenset({-1})))))
+
+        def only_behind(blocks, edge_sets):
+            edges = [e for es in edge_sets for e in es]
+            r0 = dtc.reach([0], avoid_edges=edges)
+            return bool(edges) and all(x not in r0 for x in blocks)
+
+        def must_after(edges, blocks, avoid_edges=()):
+            return bool(edges) and bool(blocks) and all(not any(x in (dtc.reach([tg], avoid_blocks=blocks, avoid_edges=avoid_edges) | ({tg} - set(blocks))) for x in dtc.return_blocks()) for _, tg in edges)
+        gm_none = [(i_, tg) for i_, tg, p in preds if re.match(r'^variant\(HashMap::get_mut\(.*\)\) ∉ \{Some\}$', p)]
+        hd = [a for a in asg if a[1] == 'head']
+        tl = [a for a in asg if a[1] == 'tail']
+        nx = [a for a in asg if a[1] == 'next']
+        pv_ = [a for a in asg if a[1] == 'prev']
+        ctx.inst('C20.R5', dtc.short, 'head := next exactly when the node had no predecessor (or was the head)',
+                 bool(hd) and all(a[3] == 'arg:next' for a in hd) and only_behind([a[0] for a in hd], [prev_none, was_head]) and must_after(prev_none, [a[0] for a in hd]),
+                 'head assignments: %s' % [(a[0], a[3]) for a in hd])
+        ctx.inst('C20.R5', dtc.short, 'tail := prev exactly when the node had no successor (or was the tail)',
+                 bool(tl) and all(a[3] == 'arg:prev' for a in tl) and only_behind([a[0] for a in tl], [next_none, was_tail]) and must_after(next_none, [a[0] for a in tl]),
+                 'tail assignments: %s' % [(a[0], a[3]) for a in tl])
+        ctx.inst('C20.R5', dtc.short, 'predecessor.next := next',
+                 len(nx) == 1 and nx[0][3] == 'arg:next' and 'HashMap::get_mut(arg:self→LruIndex.nodes, arg:prev@Some→Some.0)' in nx[0][2] and must_after(prev_some, [nx[0][0]], avoid_edges=gm_none),
+                 '%s' % [(a[2][:70], a[3]) for a in nx])
+        ctx.inst('C20.R5', dtc.short, 'successor.prev := prev',
+                 len(pv_) == 1 and pv_[0][3] == 'arg:prev' and 'HashMap::get_mut(arg:self→LruIndex.nodes, arg:next@Some→Some.0)' in pv_[0][2] and must_after(next_some, [pv_[0][0]], avoid_edges=gm_none),
+                 '%s' % [(a[2][:70], a[3]) for a in pv_])
+        inn = lb['insert_new']
+        iv = flow.Origin(inn, stop_at_vars=True)
+        iff = flow.Origin(inn)
+        ipreds = [(i_, tg, p) for i_, blk in enumerate(inn.blocks) if blk['t']['k'] == 'switch' and i_ in inn.live_blocks() for tg, p in flow.switch_edge_predicates(inn, i_, iv)]
+        ins_c = [c for c in inn.calls if c.callee and flow.short(c.callee) == 'HashMap::insert']
+        ot = inn.var_local('old_tail')
+        oto = flow.render(iff.of_local(ot[0])) if len(ot) == 1 else ''
+        node_arg = flow.render(iv.of_operand(ins_c[0].args[2], 0, frozenset({-1}))) if ins_c else ''
+        t_asg = [i_ for i_ in util.assign_blocks(inn, r'LruIndex\.tail$')]
+        h_asg = [i_ for i_ in util.assign_blocks(inn, r'LruIndex\.head$')]
+        empty_e = [(i_, tg) for i_, tg, p in ipreds if re.match(r'^variant\(var:old_tail\) ∉ \{Some\}$|^variant\(var:old_tail\) = None$', p)]
+        rets = inn.return_blocks()
+        after_ins = inn.reach([ins_c[0].to], avoid_blocks=t_asg) if ins_c and ins_c[0].to is not None else set(rets)
+        ok = bool(ins_c) and oto == 'arg:self→LruIndex.tail' and node_arg.startswith('lru_index::LruNode::LruNode{var:old_tail, option::Option::None') and bool(t_asg) and \
+            not any(x in after_ins for x in rets) and bool(h_asg) and bool(empty_e) and all(x not in inn.reach([0], avoid_edges=empty_e) for x in h_asg) and \
+            all(not any(x in (inn.reach([tg], avoid_blocks=h_asg) | ({tg} - set(h_asg))) for x in rets) for _, tg in empty_e)
+        ctx.inst('C20.R5', inn.short, 'new key linked behind the old tail, becomes tail, and head when the list was empty', ok,
+                 'node = %s; old_tail = %s; tail assignment on every path after the insert: %s; head only/always on the empty edge' % (node_arg[:60], oto, not any(x in after_ins for x in rets)))
     ctx.stat('functions_analysed', len(set(i['key'].split(' | ')[1] for i in ctx.instances)))
 
 
